@@ -209,10 +209,13 @@ example : (evalImportSet 5 { inProgress := [[.ident "x"]] } (.direct [.ident "no
   (model_in_progress_restored 5 _).1 _
 
 /-- `get_library` looks for a library file only at `libPath name` — the name's elements joined by
-`/`, with extension `sld`, RELATIVE to the program directory (the keys of `files`) — and what it
+`/`, with extension `sld`, RELATIVE to the directory the interpreter looks libraries up in at that
+moment (`fileKey st.dir`: the directory of the program file, or the working directory while none
+is recorded; `files` is keyed by directory-qualified paths) — and what it
 finds depends on nothing else: `getLibrary` is the cached instance or else `instantiate` of the
-factory `findFactory` finds, and two states that agree on the registered factory for `name` and on
-the file at `libPath name` find the same factory (or fail with the same error). -/
+factory `findFactory` finds, and two states (each with its own lookup directory) that agree on the
+registered factory for `name` and on the file at `libPath name` in their lookup directory find the
+same factory (or fail with the same error). -/
 theorem libPath_relative (name : LibName) (loc : Loc) :
     libPath name = "/".intercalate (name.map LibElem.toString) ++ ".sld" ∧
     (∀ fuel st, getLibrary (fuel + 1) st name loc =
@@ -223,7 +226,7 @@ theorem libPath_relative (name : LibName) (loc : Loc) :
         | (.error e, st) => (.error e, st)
         | (.ok f, st) => instantiate fuel st f name) ∧
     (∀ st₁ st₂ : State, libLookup st₁.factories name = libLookup st₂.factories name →
-      st₁.files.lookup (libPath name) = st₂.files.lookup (libPath name) →
+      st₁.files.lookup (fileKey st₁.dir (libPath name)) = st₂.files.lookup (fileKey st₂.dir (libPath name)) →
       (findFactory st₁ name loc).1 = (findFactory st₂ name loc).1) := by
   refine ⟨rfl, fun fuel st => getLibrary_succ_eq fuel st name loc, fun st₁ st₂ hf hfile => ?_⟩
   unfold findFactory
@@ -232,7 +235,7 @@ theorem libPath_relative (name : LibName) (loc : Loc) :
   | some f => rfl
   | none =>
     simp only
-    cases List.lookup (libPath name) st₂.files with
+    cases List.lookup (fileKey st₂.dir (libPath name)) st₂.files with
     | none => rfl
     | some fe =>
       cases fe with
